@@ -294,6 +294,10 @@ dependents), an uncached cells everything computed through it -/
 def St.onNamespaceChange (env : Env) (s : St) (c : CellId) : St :=
   if env.cached c then s.clearAllValues c false else s.clearObj c
 
+/-- a namespace notifies the cells `L` observing it, one after the other -/
+def St.notifyAll (env : Env) (s : St) (L : List CellId) : St :=
+  L.foldl (fun s c => s.onNamespaceChange env c) s
+
 /-- `own_refs.set_item` / `del_item` → `LazyEval.notify` → … → every `BaseNamespaceReferrer`
 observing the namespace of a space that contains the reference -/
 def St.notifyObservers (env : Env) (s : St) (r : RefId) : St :=
@@ -329,7 +333,7 @@ def St.setFormula (s : St) (c : CellId) : St := s.clearObj c
 the space's namespace → every cells observing it): `on_namespace_change` of every cells of the
 space -/
 def St.notifySiblings (env : Env) (s : St) (c : CellId) : St :=
-  (env.siblings c).foldl (fun s c' => s.onNamespaceChange env c') s
+  s.notifyAll env (env.siblings c)
 
 /-- `UserSpaceImpl.on_del_cells` (from `SpaceManager.del_cells`): `model.clear_obj(cells)`, then
 `cells.del_item(name)` (the notification; the deleted cells is still among the observers and holds
